@@ -3,8 +3,9 @@
 /tmp/out-<ID>/m<k> into /verif/seeded/<ID>-m<k>/ with a meta.json."""
 import json, os, shutil, sys
 pid, k, needs, caught = sys.argv[1], sys.argv[2], sys.argv[3], sys.argv[4]
-src = f"/tmp/out-{pid}/m{k}"
-dst = f"/verif/seeded/{pid}-m{k}"
+rnd = os.environ.get("ROUND", "1")
+src = f"/tmp/out-{pid}/m{k}" if rnd == "1" else f"/tmp/o2-{pid}/m{k}"
+dst = f"/verif/seeded/{pid}-m{k}" if rnd == "1" else f"/verif/seeded/{pid}-r2m{k}"
 os.makedirs(dst, exist_ok=True)
 patch = "patch.h2.diff" if os.path.exists(f"{src}/patch.h2.diff") else "patch.diff"
 shutil.copy(f"{src}/{patch}", f"{dst}/patch.diff")
@@ -19,12 +20,12 @@ if os.path.exists(f"{src}/notes.md"):
     shutil.copy(f"{src}/notes.md", f"{dst}/notes.md")
 meta = {
     "property": pid,
-    "source": "independent sub-agent given only the property text and a scratch worktree of /repo (d532453)",
+    "source": "independent sub-agent given only the property text and a scratch worktree of /repo (round 1: d532453; round 2: 79242ae, told which mechanisms round 1 used)",
     "breaks": open(f"{src}/notes.md").read().split("\n\n")[0][:600] if os.path.exists(f"{src}/notes.md") else "",
     "needs_to_manifest": needs,
     "demonstration": demos,
     "confirmed": "tools/verify_seeded.sh in the scratch worktree: existing suite 158/158 passes with the patch; demonstration fails with the patch and passes without it",
-    "ran": f"tools/try_seeded.sh seeded/{pid}-m{k}/patch.diff {pid}  (git -C /repo apply; ./check {pid} quick; git -C /repo checkout)",
+    "ran": f"tools/try_seeded.sh {dst}/patch.diff {pid}  (git -C /repo apply; ./check {pid} quick; git -C /repo checkout)",
     "caught_by": caught,
 }
 json.dump(meta, open(f"{dst}/meta.json", "w"), indent=1)
